@@ -280,7 +280,10 @@ def run(ck):
                            {"request": line, "baseline_request": runs[0][1], "options": o, "attempts": per.get(T, [])[-6:],
                             "implementation": pretty(a)[:3000], "baseline": pretty(runs[0][2])[:3000]})
                     break
+    found_sites = {k.split(":")[0] for k, v in classes.items() if v[0]}
     for key, (found, what, rep) in sorted(classes.items()):
+        if key.startswith("corr:") and key.split(":")[1] in found_sites:
+            continue      # the same source file is already reported with a concrete failing input
         ck.violation(key, what, rep, found)
     ck.assumptions += [
         "M: Model.lean (Cast3M, secant, Irons-Tuck, Steffensen) is tied to the C++ by differential execution on seeded call histories (bit-exact on Float); it is not generated from the sources",
